@@ -46,6 +46,7 @@ type Type struct {
 	HasKey   bool    `json:",omitempty"`
 	Basic    string  `json:",omitempty"`
 	AltSpell string  `json:",omitempty"` // basic: spelling used in parameter lists (identical type)
+	AliasSpell string `json:",omitempty"` // named local type: the user files spell it through this alias (type <AliasSpell> = <Name>)
 	Len      int     `json:",omitempty"`
 	RecvOnly bool    `json:",omitempty"`
 	Variadic bool    `json:",omitempty"`
@@ -225,6 +226,9 @@ func (c *Case) Expr(id TypeID, from string) string {
 	}
 	switch t.Kind {
 	case KStruct, KNBasic, KIface:
+		if t.AliasSpell != "" && t.Pkg == "" && from == "" {
+			return t.AliasSpell
+		}
 		return q(t.Name, t.Pkg)
 	case KBasic:
 		return t.Basic
